@@ -4,12 +4,16 @@
 #   tools/mutant.sh <name> <patch.diff | git-rev> <check args...>
 # <patch.diff>: applied on top of /repo's HEAD in a scratch worktree /tmp/nvm-<name>/repo
 # <git-rev>   : the worktree is checked out at that revision instead (e.g. a pre-fix commit)
+# <git-rev>+<patch.diff> : checked out at that revision, then the patch is applied
 set -e
 name=$1; what=$2; shift 2
 base=/tmp/nvm-$name
 if [ ! -d $base/repo ]; then
   mkdir -p $base
-  if [ -f "$what" ]; then
+  if [[ "$what" == *+* && -f "${what#*+}" ]]; then
+    git -C /repo worktree add -q --detach $base/repo "${what%%+*}"
+    git -C $base/repo apply "$(readlink -f ${what#*+})"
+  elif [ -f "$what" ]; then
     git -C /repo worktree add -q --detach $base/repo HEAD
     git -C $base/repo apply "$(readlink -f $what)"
   else
